@@ -21,7 +21,7 @@ Init == l = 1 /\ c = [n |-> 0, gates |-> <<>>] /\ viol = <<>> /\ drift = <<>>
         /\ stats = [circuits |-> 0, roundtrips |-> 0, in_domain |-> 0, programs |-> 0, expected_ok |-> 0, expected_err |-> 0,
                     beyond |-> 0, names |-> 0, nontrivial |-> 0, l1same |-> 0]
 
-IsPlain(s) == s.s = "gate" /\ s.form \in {"plain", "plain11"}
+IsPlain(s) == s.s = "gate" /\ s.form \in {"plain", "plain11", "mixed"}
 \* the parsed circuit of a parse event against the circuit x the specification computes (one gate per statement)
 SameCirc(e, x) ==
   /\ e.out.n = x.n /\ Len(e.out.gates) = Len(x.gates) /\ Len(e.close) = Len(x.gates)
